@@ -200,6 +200,10 @@ class Program:
         self.methods_by_name = {}  # method name -> [Func]
         self._load()
         self._index()
+        self.roles = {}
+        if os.environ.get("VERIF_NO_CANON") != "1":
+            from . import roles
+            self.roles = roles.apply(self)
 
     # -- loading -----------------------------------------------------------
     def _load(self):
